@@ -5,42 +5,51 @@ EXTENDS PolygonOps, TLC, Json
 CONSTANTS Depth, Size        \* Size = "small" (quick) or "full"
 
 Verts == IF Size = "small"
-         THEN {<<"N", 0>>, <<"N", 77>>, <<"S", -120>>, <<"E", 0>>, <<"E", 1>>, <<"E", 90>>, <<"E", 180>>, <<"E", -180>>,
+         THEN {<<"N", 0>>, <<"N", 77>>, <<"N", 360>>, <<"S", -120>>, <<"E", 0>>, <<"E", 1>>, <<"E", 90>>, <<"E", 180>>, <<"E", -180>>,
                <<"E", -90>>, <<"E", 270>>, <<"E", 359>>}
-         ELSE {<<"N", 0>>, <<"N", 77>>, <<"S", 0>>, <<"S", -120>>, <<"E", 0>>, <<"E", 1>>, <<"E", 90>>, <<"E", 179>>, <<"E", 180>>,
+         ELSE {<<"N", 0>>, <<"N", 77>>, <<"N", 360>>, <<"S", 0>>, <<"S", -120>>, <<"E", 0>>, <<"E", 1>>, <<"E", 90>>, <<"E", 179>>, <<"E", 180>>,
                <<"E", -180>>, <<"E", -90>>, <<"E", 270>>, <<"E", 359>>, <<"E", 540>>, <<"E", -1>>, <<"E", 45>>}
 Edges == IF Size = "small" THEN {<<1, 90>>, <<1, 181>>, <<-1, 270>>}
          ELSE {<<1, 90>>, <<1, 181>>, <<-1, 1>>, <<-1, 270>>, <<1, 359>>, <<-1, 180>>}
-VARIABLES pre, polyline, verts, hows
+\* lead = 1: the current object received one AddEdge while it was still empty (documented: "This does nothing if no points
+\* have been added yet"); the call is part of the history (one operation of the depth budget) but not of the abstract state
+VARIABLES pre, polyline, verts, hows, lead
+EmptyEdge == <<"ed", 1, 90>>
 
 \* a fixed prefix executed and then cleared: clearing must restore the empty state
 \* (the first prefix crosses the prime meridian an odd number of times, so that a stale crossing count shows in the next polygon)
 Garbage == << <<"pt", "E", -10>>, <<"pt", "E", 10>>, <<"ed", 1, 100>> >>
 GarbageN == << <<"pt", "N", 0>>, <<"pt", "E", 10>>, <<"ed", 1, 100>> >>
 
-Init == /\ pre \in (IF Size = "small" THEN {<<>>, Garbage} ELSE {<<>>, Garbage, GarbageN}) /\ polyline \in {FALSE, TRUE} /\ verts = <<>> /\ hows = <<>>
+Init == /\ pre \in (IF Size = "small" THEN {<<>>, Garbage} ELSE {<<>>, Garbage, GarbageN}) /\ polyline \in {FALSE, TRUE} /\ verts = <<>> /\ hows = <<>> /\ lead = 0
 
 \* operations spent before a Clear chosen by the model (the fixed prefixes are free)
 Fixed == {<<>>, Garbage, GarbageN}
 Used == IF pre \in Fixed THEN 0 ELSE Len(pre)
+Spent == Len(verts) + lead + Used
 
 AddPoint(p) ==
-  /\ Len(verts) + Used < Depth
+  /\ Spent < Depth
   /\ ~(verts # <<>> /\ Antipodal(verts[Len(verts)], p))        \* shortest line must be unique
   /\ verts' = Append(verts, p) /\ hows' = Append(hows, <<"pt">>)
-  /\ UNCHANGED <<pre, polyline>>
+  /\ UNCHANGED <<pre, polyline, lead>>
 AddEdge(e) ==
-  /\ Len(verts) + Used < Depth /\ AddEdgeOK(verts)
+  /\ Spent < Depth /\ AddEdgeOK(verts)
   /\ LET r == AddEdgeS(verts, hows, e[1], e[2]) IN verts' = r[1] /\ hows' = r[2]
-  /\ UNCHANGED <<pre, polyline>>
+  /\ UNCHANGED <<pre, polyline, lead>>
+\* AddEdge on the empty object (fresh, or directly after Clear): no effect on the abstract state
+AddEdgeEmpty ==
+  /\ verts = <<>> /\ lead = 0 /\ Spent < Depth
+  /\ lead' = 1 /\ UNCHANGED <<pre, polyline, verts, hows>>
 \* the history as an operation list
-Ops == [i \in 1..Len(verts) |-> IF hows[i][1] = "pt" THEN <<"pt", verts[i][1], verts[i][2]>>
+Ops == (IF lead = 1 THEN <<EmptyEdge>> ELSE <<>>) \o
+       [i \in 1..Len(verts) |-> IF hows[i][1] = "pt" THEN <<"pt", verts[i][1], verts[i][2]>>
                                 ELSE <<"ed", hows[i][2], hows[i][3]>>]
 
 \* Clear at any point of a history (once): what was built becomes the prefix, the object must be empty again
-Clear == /\ pre = <<>> /\ Len(verts) \in 1..(Depth - 1)
-         /\ pre' = Ops /\ verts' = <<>> /\ hows' = <<>> /\ UNCHANGED polyline
-Next == (\E p \in Verts : AddPoint(p)) \/ (\E e \in Edges : AddEdge(e)) \/ Clear
+Clear == /\ pre = <<>> /\ (Len(verts) + lead) \in 1..(Depth - 1)
+         /\ pre' = Ops /\ verts' = <<>> /\ hows' = <<>> /\ lead' = 0 /\ UNCHANGED polyline
+Next == (\E p \in Verts : AddPoint(p)) \/ (\E e \in Edges : AddEdge(e)) \/ AddEdgeEmpty \/ Clear
 
 (* ------------------------ invariants of the model ------------------------ *)
 Rot(s, k) == [i \in 1..Len(s) |-> s[((i + k - 1) % Len(s)) + 1]]
@@ -79,5 +88,5 @@ ReportInv ==
     /\ c[1] = Len(verts)
     /\ \A a \in c[3] : IF Flags[f][2] THEN a >= -360 /\ a <= 360 ELSE a >= 0 /\ a <= 720
 
-Emit == Len(verts) + Used = Depth => PrintT(ToJson(<<"hist", polyline, pre, Ops>>))
+Emit == Spent = Depth => PrintT(ToJson(<<"hist", polyline, pre, Ops>>))
 =============================================================================
